@@ -5,10 +5,11 @@
    branches (it answers None only when it is given too little fuel).
 
    Part 1 (this file): abstraction function, state invariant, the actions.
-   Hypothesis on the callbacks (act_ok): registered descriptors are real (0 <= fd), and a
-   callback watching signal S does not register a further watch of S itself (whether the
-   walk of tickit_evloop_invoke_sigwatches reaches a watch appended during the walk depends
-   on whether the running one was last; the specification leaves that case open). *)
+   Hypothesis on the callbacks (act_ok): registered descriptors are real (0 <= fd).  Callbacks may
+   cancel and register what they like, watches of the signal being dispatched included: a
+   watch registered while the walk of tickit_evloop_invoke_sigwatches is under way is passed
+   over by that walk (fixes/C18-sigwatch-walk-snapshot.patch), as the specification demands --
+   it was not watching when the signal was delivered. *)
 From Coq Require Import ZArith List Bool Lia.
 From Tickit Require Import LoopDefs LoopSigDefs LoopSigProofs LoopSigIO LoopSigSpec.
 Import ListNotations.
@@ -208,7 +209,6 @@ Variable env : Z -> list saction.
 Definition act_ok (a : saction) : Prop :=
   match a with
   | SIo fd _ _ _ => 0 <= fd
-  | SSig sig _ cb => forall ub' cb', ~ In (SSig sig ub' cb') (env cb)
   | _ => True
   end.
 Definition env_ok : Prop := forall cb, Forall act_ok (env cb).
@@ -224,7 +224,7 @@ Record J (s : sst) : Prop := mkJ {
   J_ltlt : forall w, In w (drun s ++ dlaters s) -> l_id w < snext s;
   J_io : forall w, In w (iows s) ->
          exists sl, nth_error (slots s) (i_slot w) = Some sl /\ p_fd sl = i_fd w /\ p_watch sl = i_id w /\ 0 <= i_fd w;
-  J_sg : forall w, In w (sgws s) -> forall ub cb, ~ In (SSig (g_sig w) ub cb) (env (g_cb w)) }.
+  J_nn : 0 <= snext s }.
 
 (* what tickit_watch_cancel does, field by field *)
 Definition same_but_log (s s' : sst) : Prop :=
@@ -367,7 +367,7 @@ Proof.
   - rewrite Hg. intros w Hw. specialize (d w Hw). lia.
   - rewrite Hr, Hd. intros w Hw. specialize (e w Hw). lia.
   - rewrite Hi, Hs. exact f.
-  - rewrite Hg. exact g.
+  - lia.
 Qed.
 
 Lemma xabs_same : forall s s', iows s' = iows s -> slots s' = slots s -> sgws s' = sgws s ->
@@ -401,7 +401,7 @@ Proof.
           assert (w' = w) by (eapply nodup_same_id; [exact (tw_nodup s (J_tw s HJ))|exact Hin'|exact Hin|congruence]).
           subst w'. symmetry. exact Hsl'. }
       rewrite E1, E2. destruct (i_unbind w); reflexivity.
-    + apply mkJ; [exact HTW|rewrite Hg; apply (J_sgnd s HJ)|rewrite Hr, Hd; apply (J_ltnd s HJ)| | | |].
+    + apply mkJ; [exact HTW|rewrite Hg; apply (J_sgnd s HJ)|rewrite Hr, Hd; apply (J_ltnd s HJ)| | | |rewrite K6; apply (J_nn s HJ)].
       * rewrite Hg, K6. apply (J_sglt s HJ).
       * rewrite Hr, Hd, K6. apply (J_ltlt s HJ).
       * rewrite Hi, Hs. intros w' Hw'.
@@ -410,17 +410,15 @@ Proof.
         exists sl'. split; [|repeat split; assumption].
         rewrite nth_error_set_nth. destruct (Nat.eqb (i_slot w) (i_slot w')) eqn:E; [|exact Hn'].
         apply Nat.eqb_eq in E. rewrite <- E, Hn in Hn'. inversion Hn'; subst sl'. exfalso. apply Hne. congruence.
-      * rewrite Hg. apply (J_sg s HJ).
   - (* a signal watch *)
     split.
     + unfold xabs, x_cancel. cbn [x_ios x_sgs x_kpend]. rewrite find_xio_map, Eio. cbn [option_map]. rewrite Esg, Ek.
       rewrite Hi, Hs, Hg, Hd, Hr, K1, K4, K5, K6, K7, K8, Hl. destruct (g_unbind w); reflexivity.
-    + apply mkJ; [exact HTW| |rewrite Hr, Hd; apply (J_ltnd s HJ)| | | |].
+    + apply mkJ; [exact HTW| |rewrite Hr, Hd; apply (J_ltnd s HJ)| | | |rewrite K6; apply (J_nn s HJ)].
       * rewrite Hg. eapply subl_nodup; [apply subl_remove_sgw|apply (J_sgnd s HJ)].
       * rewrite Hg, K6. intros v Hv. apply (J_sglt s HJ). eapply in_remove_sgw_elem. exact Hv.
       * rewrite Hr, Hd, K6. apply (J_ltlt s HJ).
       * rewrite Hi, Hs. apply (J_io s HJ).
-      * rewrite Hg. intros v Hv. apply (J_sg s HJ). eapply in_remove_sgw_elem. exact Hv.
   - (* a deferred callback not yet taken *)
     pose proof (find_ltr_disjoint id (drun s) (dlaters s) w (J_ltnd s HJ) Edl) as Edr.
     split.
@@ -429,13 +427,12 @@ Proof.
       rewrite Hi, Hs, Hg, Hd, Hr, K1, K4, K5, K6, K7, K8, Hl. destruct (l_unbind w); reflexivity.
     + assert (Hsub : subl (map l_id (drun s ++ remove_ltr id (dlaters s))) (map l_id (drun s ++ dlaters s))).
       { rewrite !map_app. apply subl_app; [apply subl_refl|apply subl_remove_ltr]. }
-      apply mkJ; [exact HTW|rewrite Hg; apply (J_sgnd s HJ)| | | | |].
+      apply mkJ; [exact HTW|rewrite Hg; apply (J_sgnd s HJ)| | | | |rewrite K6; apply (J_nn s HJ)].
       * rewrite Hr, Hd. eapply subl_nodup; [exact Hsub|apply (J_ltnd s HJ)].
       * rewrite Hg, K6. apply (J_sglt s HJ).
       * rewrite Hr, Hd, K6. intros v Hv. apply (J_ltlt s HJ). apply in_app_or in Hv. apply in_or_app.
         destruct Hv as [Hv|Hv]; [left; exact Hv|right; eapply in_remove_ltr_elem; exact Hv].
       * rewrite Hi, Hs. apply (J_io s HJ).
-      * rewrite Hg. apply (J_sg s HJ).
   - (* a deferred callback of the batch being run *)
     split.
     + unfold xabs, x_cancel. cbn [x_ios x_sgs x_kpend x_def]. rewrite find_xio_map, Eio. cbn [option_map]. rewrite Esg.
@@ -443,13 +440,12 @@ Proof.
       rewrite Hi, Hs, Hg, Hd, Hr, K1, K4, K5, K6, K7, K8, Hl. destruct (l_unbind w); reflexivity.
     + assert (Hsub : subl (map l_id (remove_ltr id (drun s) ++ dlaters s)) (map l_id (drun s ++ dlaters s))).
       { rewrite !map_app. apply subl_app; [apply subl_remove_ltr|apply subl_refl]. }
-      apply mkJ; [exact HTW|rewrite Hg; apply (J_sgnd s HJ)| | | | |].
+      apply mkJ; [exact HTW|rewrite Hg; apply (J_sgnd s HJ)| | | | |rewrite K6; apply (J_nn s HJ)].
       * rewrite Hr, Hd. eapply subl_nodup; [exact Hsub|apply (J_ltnd s HJ)].
       * rewrite Hg, K6. apply (J_sglt s HJ).
       * rewrite Hr, Hd, K6. intros v Hv. apply (J_ltlt s HJ). apply in_app_or in Hv. apply in_or_app.
         destruct Hv as [Hv|Hv]; [left; eapply in_remove_ltr_elem; exact Hv|right; exact Hv].
       * rewrite Hi, Hs. apply (J_io s HJ).
-      * rewrite Hg. apply (J_sg s HJ).
   - (* nothing to cancel, or a signal watch that must stay *)
     subst s'. split; [|exact HJ]. destruct H as [Eio H]. unfold x_cancel. cbn [x_ios x_sgs x_kpend x_def xabs].
     rewrite find_xio_map, Eio. cbn [option_map].
@@ -477,7 +473,7 @@ Proof.
         -- pose proof (J_ltlt s HJ w Hw). lia.
         -- subst w. cbn. lia.
       * apply (J_io s HJ).
-      * apply (J_sg s HJ).
+      * pose proof (J_nn s HJ). lia.
   - (* IO watch *)
     cbn in Hok.
     pose proof (TW_io s fd cond ub cb (J_tw s HJ) Hok) as HTW.
@@ -505,7 +501,7 @@ Proof.
            ++ destruct (J_io s HJ w Hw) as [sl [Hn R]]. exists sl. split; [|exact R].
               rewrite nth_error_set_nth, (Hother w Hw). exact Hn.
            ++ subst w. cbn. eexists. split; [apply set_nth_nth_error; lia|]. cbn. repeat split; lia.
-        -- apply (J_sg s HJ).
+        -- pose proof (J_nn s HJ). lia.
     + split.
       * unfold xabs. cbn. rewrite map_app. cbn [map].
         f_equal; [f_equal|].
@@ -524,7 +520,7 @@ Proof.
               rewrite nth_error_app1; [exact Hn|]. apply nth_error_Some. rewrite Hn. discriminate.
            ++ subst w. cbn. eexists. split; [rewrite nth_error_app2 by lia; rewrite Nat.sub_diag; reflexivity|].
               cbn. repeat split; lia.
-        -- apply (J_sg s HJ).
+        -- pose proof (J_nn s HJ). lia.
   - (* signal watch *)
     split; [reflexivity|]. apply mkJ; cbn.
     + apply (TW_action env s (SSig sig ub cb) (J_tw s HJ) I).
@@ -536,9 +532,7 @@ Proof.
       * subst w. cbn. lia.
     + intros w Hw. pose proof (J_ltlt s HJ w Hw). lia.
     + apply (J_io s HJ).
-    + intros w Hw. apply in_app_or in Hw. destruct Hw as [Hw|[Hw|[]]].
-      * apply (J_sg s HJ w Hw).
-      * subst w. cbn. exact Hok.
+    + pose proof (J_nn s HJ). lia.
   - apply sim_cancel. exact HJ.
   - split; [reflexivity|]. eapply J_same; [exact HJ|reflexivity..|cbn; lia].
   - cbn [sdo_action x_action]. change (x_watched (xabs s) sig) with (is_watched s sig).
@@ -924,40 +918,42 @@ Qed.
 Section Walk.
 Variable sig : Z.
 Variable L0 : list sgw.     (* the list when the walk began *)
+Variable N : Z.             (* the registration counter when the walk began: t->sigwalk_seq's role *)
 
 Definition Pm (i : Z) : bool := match find_sgw i L0 with Some w => g_sig w =? sig | None => false end.
 
 (* r: identities of the original list not yet passed.  The live list is pre ++ rem_o ++ news:
    pre has been passed (or was appended when nothing remained), rem_o are the surviving
-   originals in order, news were appended during the walk (they watch other signals) *)
+   originals in order, news were appended during the walk (numbers >= N: born during it) *)
 Record WIr (r : list Z) (s : sst) (this : option Z) (pre rem_o news : list sgw) : Prop := mkWI {
   wi_dec : sgws s = pre ++ rem_o ++ news;
   wi_this : this = hd_id (rem_o ++ news);
   wi_sub : subl (map g_id rem_o) r;
   wi_out : forall i, In i r -> ~ In i (map g_id pre) /\ ~ In i (map g_id news) /\ i < snext s;
-  wi_news : forall w, In w news -> g_sig w <> sig;
+  wi_news : forall w, In w news -> N <= g_id w;
+  wi_N : N <= snext s;
   wi_orig : forall w, In w rem_o -> In w L0 }.
 Definition WI (r : list Z) (s : sst) (this : option Z) : Prop := exists pre rem_o news, WIr r s this pre rem_o news.
 
 Lemma WI_mono : forall r s s', sgws s' = sgws s -> cursor s' = cursor s -> snext s <= snext s' ->
   WI r s (cursor s) -> WI r s' (cursor s').
 Proof.
-  intros r s s' Hg Hc Hn [pre [ro [nw [A B C D E F]]]]. exists pre, ro, nw. apply mkWI; try assumption.
+  intros r s s' Hg Hc Hn [pre [ro [nw [A B C D E EN F]]]]. exists pre, ro, nw. apply mkWI; try assumption.
   - rewrite Hg. exact A.
   - rewrite Hc. exact B.
   - intros i Hi. destruct (D i Hi) as [D1 [D2 D3]]. repeat split; try assumption. lia.
+  - lia.
 Qed.
 
-Lemma WI_action : forall r s a, J s -> act_ok a -> (forall ub cb, a <> SSig sig ub cb) ->
+Lemma WI_action : forall r s a, J s -> act_ok a ->
   WI r s (cursor s) -> WI r (sdo_action fixed_cfg s a) (cursor (sdo_action fixed_cfg s a)).
 Proof.
-  intros r s a HJ Hok Hns HW. destruct a as [ub cb|fd cond ub cb|sg ub cb|id|e|sg| |];
+  intros r s a HJ Hok HW. destruct a as [ub cb|fd cond ub cb|sg ub cb|id|e|sg| |];
     try (eapply WI_mono; [| | |exact HW]; try reflexivity; cbn; lia).
   - destruct (sio_fields s fd cond ub cb) as [i [_ [Eg [_ [_ [Ec [En _]]]]]]].
     eapply WI_mono; [exact Eg|exact Ec|lia|exact HW].
-  - (* a watch of another signal is appended *)
-    assert (Hne : sg <> sig) by (intros E; subst; apply (Hns ub cb); reflexivity).
-    destruct HW as [pre [ro [nw [A B C D E F]]]].
+  - (* a watch is appended: it is born during the walk *)
+    destruct HW as [pre [ro [nw [A B C D E EN F]]]].
     set (n := mkSg (snext s) sg ub cb).
     destruct (ro ++ nw) as [|x rm] eqn:Erem.
     + apply app_eq_nil in Erem. destruct Erem; subst ro nw.
@@ -968,6 +964,7 @@ Proof.
       * intros i Hi. destruct (D i Hi) as [D1 [D2 D3]]. split; [|split; [intros []|lia]].
         rewrite map_app. intros Hin. apply in_app_or in Hin. destruct Hin as [Hin|[Hin|[]]]; [contradiction|]. cbn in Hin. lia.
       * intros w [].
+      * lia.
       * intros w [].
     + rewrite <- Erem in A, B. exists pre, ro, (nw ++ [n]). apply mkWI; cbn.
       * rewrite A. rewrite <- !app_assoc. reflexivity.
@@ -975,13 +972,14 @@ Proof.
       * exact C.
       * intros i Hi. destruct (D i Hi) as [D1 [D2 D3]]. split; [exact D1|split; [|lia]].
         rewrite map_app. intros Hin. apply in_app_or in Hin. destruct Hin as [Hin|[Hin|[]]]; [contradiction|]. cbn in Hin. lia.
-      * intros w Hw. apply in_app_or in Hw. destruct Hw as [Hw|[Hw|[]]]; [exact (E w Hw)|]. subst w. exact Hne.
+      * intros w Hw. apply in_app_or in Hw. destruct Hw as [Hw|[Hw|[]]]; [exact (E w Hw)|]. subst w. cbn. exact EN.
+      * lia.
       * exact F.
   - (* cancel *)
     cbn [sdo_action]. destruct (scancel_cases s id HJ) as [[_ [_ [_ [_ [_ [K6 _]]]]]] Cc].
     destruct Cc as [w sl _ _ _ _ Hg _ _ Hc _ | w _ Esg _ _ _ Hg _ _ Hc _ | w _ _ _ _ _ Hg _ _ Hc _ | w _ _ _ _ _ _ Hg _ _ Hc _ | E _];
       try (eapply WI_mono; [exact Hg|exact Hc|lia|exact HW]).
-    + destruct HW as [pre [ro [nw [A B C D E F]]]].
+    + destruct HW as [pre [ro [nw [A B C D E EN F]]]].
       pose proof (J_sgnd s HJ) as Hnd. rewrite A in Hnd, Esg.
       pose proof (cursor_remove id pre (ro ++ nw) w Hnd Esg) as Hcr. cbv zeta in Hcr.
       assert (Hc2 : cursor (scancel s id) =
@@ -993,17 +991,17 @@ Proof.
       destruct Hcr as [[Hp Hcu]|[Hp Hcu]].
       * (* a watch already passed *)
         destruct (find_sgw id pre) as [v|] eqn:Ep; [|contradiction].
-        exists (remove_sgw id pre), ro, nw. apply mkWI; [exact Hg|exact Hcu|exact C| |exact E|exact F].
+        exists (remove_sgw id pre), ro, nw. apply mkWI; [exact Hg|exact Hcu|exact C| |exact E|lia|exact F].
         intros i Hi. destruct (D i Hi) as [D1 [D2 D3]]. split; [|split; [exact D2|lia]].
         intros Hin. apply D1. eapply subl_in; [apply subl_remove_sgw|exact Hin].
       * rewrite Hp in Hg. rewrite remove_sgw_app in Hg, Hcu. destruct (find_sgw id ro) as [v|] eqn:Er.
         -- (* one of the originals still to come *)
-           exists pre, (remove_sgw id ro), nw. apply mkWI; [exact Hg|exact Hcu| | |exact E|].
+           exists pre, (remove_sgw id ro), nw. apply mkWI; [exact Hg|exact Hcu| | |exact E|lia|].
            ++ eapply subl_trans; [apply subl_remove_sgw|exact C].
            ++ intros i Hi. destruct (D i Hi) as [D1 [D2 D3]]. repeat split; try assumption. lia.
            ++ intros v' Hv'. apply F. eapply in_remove_sgw_elem. exact Hv'.
         -- (* one appended during the walk *)
-           exists pre, ro, (remove_sgw id nw). apply mkWI; [exact Hg|exact Hcu|exact C| | |exact F].
+           exists pre, ro, (remove_sgw id nw). apply mkWI; [exact Hg|exact Hcu|exact C| | |lia|exact F].
            ++ intros i Hi. destruct (D i Hi) as [D1 [D2 D3]]. split; [exact D1|split; [|lia]].
               intros Hin. apply D2. eapply subl_in; [apply subl_remove_sgw|exact Hin].
            ++ intros v' Hv'. apply E. eapply in_remove_sgw_elem. exact Hv'.
@@ -1011,24 +1009,25 @@ Proof.
   - cbn [sdo_action]. destruct (is_watched s sg); [|exact HW]. eapply WI_mono; [| | |exact HW]; reflexivity.
 Qed.
 
-Lemma WI_actions : forall l r s, J s -> Forall act_ok l -> Forall (fun a => forall ub cb, a <> SSig sig ub cb) l ->
+Lemma WI_actions : forall l r s, J s -> Forall act_ok l ->
   WI r s (cursor s) -> WI r (sdo_actions fixed_cfg s l) (cursor (sdo_actions fixed_cfg s l)).
 Proof.
-  induction l as [|a t IH]; intros r s HJ Hl Hns HW; [exact HW|].
-  inversion Hl as [|? ? Ha Ht]; subst. inversion Hns as [|? ? Hna Hnt]; subst.
-  cbn [sdo_actions fold_left]. apply IH; [apply sim_action; assumption|exact Ht|exact Hnt|].
+  induction l as [|a t IH]; intros r s HJ Hl HW; [exact HW|].
+  inversion Hl as [|? ? Ha Ht]; subst.
+  cbn [sdo_actions fold_left]. apply IH; [apply sim_action; assumption|exact Ht|].
   apply WI_action; assumption.
 Qed.
 
-(* watches appended during the walk: visited, none watches this signal *)
-Lemma walk_news : forall nw pre s, J s -> sgws s = pre ++ nw -> (forall w, In w nw -> g_sig w <> sig) ->
+(* watches appended during the walk: looked at, passed over (born during it) *)
+Lemma walk_news : forall nw pre s, J s -> sgws s = pre ++ nw -> (forall w, In w nw -> N <= g_id w) ->
   exists s', (xabs s' = xabs s /\ J s' /\ drun s' = drun s) /\
-  forall fuel, (length nw < fuel)%nat -> sig_walk fixed_cfg env fuel (hd_id nw) sig s = Some s'.
+  forall fuel, (length nw < fuel)%nat -> sig_walk fixed_cfg env fuel N (hd_id nw) sig s = Some s'.
 Proof.
   induction nw as [|x rm IH]; intros pre s HJ Hd Hn.
   - exists s. split; [split; [reflexivity|split; [exact HJ|reflexivity]]|]. intros fuel Hf. destruct fuel; [cbn in Hf; lia|reflexivity].
   - pose proof (J_sgnd s HJ) as Hnd. rewrite Hd in Hnd. destruct (nodup_mid pre x rm Hnd) as [Hnp _].
-    assert (Ex : (g_sig x =? sig) = false) by (apply Z.eqb_neq; apply Hn; left; reflexivity).
+    assert (Ex : ((g_sig x =? sig) && (g_id x <? N)) = false).
+    { apply andb_false_iff. right. apply Z.ltb_ge. apply Hn. left. reflexivity. }
     set (s1 := up_cursor s (hd_id rm)).
     assert (HJ1 : J s1) by (eapply J_same; [exact HJ|reflexivity..|cbn; lia]).
     destruct (IH (pre ++ [x]) s1 HJ1) as [s' [[X [Y Z0]] W]].
@@ -1041,21 +1040,22 @@ Proof.
 Qed.
 
 Hypothesis L0nd : NoDup (map g_id L0).
+Hypothesis L0lt : forall w, In w L0 -> g_id w < N.
 
 (* tickit_evloop_invoke_sigwatches: every watch of the signal that was in the list when the walk
    began and is still live when its turn comes is invoked, once, in list order *)
 Lemma walk_sim : forall r s this, J s -> WI r s this -> NoDup r ->
   exists s', (xabs s' = x_run_sig env (filter Pm r) sig (xabs s) /\ J s' /\
               subl (map l_id (drun s')) (map l_id (drun s))) /\
-  exists f0, forall fuel, (f0 <= fuel)%nat -> sig_walk fixed_cfg env fuel this sig s = Some s'.
+  exists f0, forall fuel, (f0 <= fuel)%nat -> sig_walk fixed_cfg env fuel N this sig s = Some s'.
 Proof.
   induction r as [|i r IH]; intros s this HJ HW Hnd.
-  - destruct HW as [pre [ro [nw [A B C D E F]]]].
+  - destruct HW as [pre [ro [nw [A B C D E EN F]]]].
     apply subl_nil_inv in C. apply map_eq_nil in C. subst ro. cbn [app] in A, B. subst this.
     destruct (walk_news nw pre s HJ A E) as [s' [[X [Y Z0]] W]].
     exists s'. split; [split; [exact X|split; [exact Y|rewrite Z0; apply subl_refl]]|].
     exists (S (length nw)). intros fuel Hf. apply W. lia.
-  - destruct HW as [pre [ro [nw [A B C D E F]]]]. inversion Hnd as [|? ? Hir Hndr]; subst.
+  - destruct HW as [pre [ro [nw [A B C D E EN F]]]]. inversion Hnd as [|? ? Hir Hndr]; subst.
     destruct (subl_cons_inv _ _ _ C Hnd) as [[a' [Ea Hs']]|[Hni Hs']].
     + (* i is the watch the cursor names *)
       destruct ro as [|w ro]; [discriminate|]. cbn [map] in Ea. inversion Ea as [[Ew Ea']]. clear Ea. subst i.
@@ -1063,6 +1063,7 @@ Proof.
       assert (Hfw : find_sgw (g_id w) (sgws s) = Some w) by (rewrite A; apply find_sgw_mid; exact Dp).
       assert (Haf : sgw_after (g_id w) (sgws s) = hd_id (ro ++ nw)).
       { rewrite A. cbn [app]. rewrite sgw_after_mid by exact Dp. reflexivity. }
+      assert (Hbw : (g_id w <? N) = true) by (apply Z.ltb_lt; apply L0lt; apply F; left; reflexivity).
       assert (HPm : Pm (g_id w) = (g_sig w =? sig)).
       { unfold Pm. rewrite (find_sgw_in_nodup L0 w L0nd); [reflexivity|]. apply F. left. reflexivity. }
       set (s1 := up_cursor s (hd_id (ro ++ nw))).
@@ -1076,30 +1077,30 @@ Proof.
           rewrite map_app. intros Hin. apply in_app_or in Hin. destruct Hin as [Hin|[Hin|[]]]; [contradiction|].
           cbn in Hin. subst j. contradiction.
         - exact E.
+        - exact EN.
         - intros v Hv. apply F. right. exact Hv. }
       cbn [filter]. rewrite HPm.
       destruct (g_sig w =? sig) eqn:Em.
       * (* it watches the signal: invoked *)
         pose proof Em as Emb. apply Z.eqb_eq in Em.
-        set (s1e := semit s1 (g_id w) KSig EV_FIRE sig).
-        assert (HJ1e : J s1e) by (eapply J_same; [exact HJ1|reflexivity..|cbn; lia]).
-        assert (HW1e : WI r s1e (cursor s1e)) by (eapply WI_mono; [| | |exact HW1]; try reflexivity; cbn; lia).
-        assert (Hok : Forall act_ok (env (g_cb w))) by apply Henv.
-        assert (Hns : Forall (fun a => forall ub cb, a <> SSig sig ub cb) (env (g_cb w))).
-        { apply Forall_forall. intros a Ha ub cb Ea. subst a.
-          assert (Hwin : In w (sgws s)) by (rewrite A; apply in_or_app; right; left; reflexivity).
-          apply (J_sg s HJ w Hwin ub cb). rewrite Em. exact Ha. }
-        destruct (sim_actions (env (g_cb w)) s1e HJ1e Hok) as [E2 HJ2].
-        pose proof (WI_actions (env (g_cb w)) r s1e HJ1e Hok Hns HW1e) as HW2.
-        set (s2 := sdo_actions fixed_cfg s1e (env (g_cb w))) in *.
+        set (s1e := sig_fire s1 w sig).
+        assert (HJ1e : J s1e) by (unfold s1e, sig_fire; destruct (g_id w <? 0); [exact HJ1|eapply J_same; [exact HJ1|reflexivity..|cbn; lia]]).
+        assert (HW1e : WI r s1e (cursor s1e)).
+        { unfold s1e, sig_fire. destruct (g_id w <? 0); [exact HW1|]. eapply WI_mono; [| | |exact HW1]; try reflexivity; cbn; lia. }
+        assert (Hok : Forall act_ok (cb_acts env w)) by (unfold cb_acts; destruct (g_id w <? 0); [repeat constructor|apply Henv]).
+        assert (Ex1e : xabs s1e = x_sig_fire (xabs s) w sig) by (unfold s1e, sig_fire, x_sig_fire; destruct (g_id w <? 0); reflexivity).
+        destruct (sim_actions (cb_acts env w) s1e HJ1e Hok) as [E2 HJ2].
+        pose proof (WI_actions (cb_acts env w) r s1e HJ1e Hok HW1e) as HW2.
+        set (s2 := sdo_actions fixed_cfg s1e (cb_acts env w)) in *.
         destruct (IH s2 (cursor s2) HJ2 HW2 Hndr) as [s' [[R2 [R3 R4]] [f0 Hf0]]].
         exists s'. split; [split; [|split; [exact R3|]]|].
-        -- rewrite R2, E2. cbn [x_run_sig].
+        -- rewrite R2, E2, Ex1e. cbn [x_run_sig].
            assert (Hx : find_sgw (g_id w) (x_sgs (xabs s)) = Some w) by exact Hfw.
            rewrite Hx. reflexivity.
-        -- eapply subl_trans; [exact R4|]. exact (acts_drun (env (g_cb w)) s1e HJ1e Hok).
+        -- eapply subl_trans; [exact R4|]. eapply subl_trans; [exact (acts_drun (cb_acts env w) s1e HJ1e Hok)|].
+           unfold s1e, sig_fire. destruct (g_id w <? 0); apply subl_refl.
         -- exists (S f0). intros fuel Hf. destruct fuel as [|f]; [lia|].
-           cbn [app hd_id sig_walk]. rewrite Hfw, Haf, Emb. apply Hf0. lia.
+           cbn [app hd_id sig_walk]. rewrite Hfw, Haf, Emb, Hbw. apply Hf0. lia.
       * (* it watches another signal: passed over *)
         destruct (IH s1 (cursor s1) HJ1 HW1 Hndr) as [s' [[R2 [R3 R4]] [f0 Hf0]]].
         exists s'. split; [split; [|split; [exact R3|exact R4]]|].
@@ -1112,7 +1113,7 @@ Proof.
         intros Hin. apply in_app_or in Hin. destruct Hin as [Hin|Hin]; [contradiction|].
         apply in_app_or in Hin. destruct Hin as [Hin|Hin]; contradiction. }
       assert (HW' : WI r s (hd_id (ro ++ nw))).
-      { exists pre, ro, nw. apply mkWI; [exact A|reflexivity|exact Hs'| |exact E|exact F]. intros j Hj. apply D. right. exact Hj. }
+      { exists pre, ro, nw. apply mkWI; [exact A|reflexivity|exact Hs'| |exact E|exact EN|exact F]. intros j Hj. apply D. right. exact Hj. }
       destruct (IH s _ HJ HW' Hndr) as [s' [[R2 [R3 R4]] Hf0]].
       exists s'. split; [split; [|split; assumption]|exact Hf0].
       rewrite R2. cbn [filter]. destruct (Pm i); [|reflexivity]. cbn [x_run_sig].
@@ -1140,7 +1141,7 @@ Proof.
   - cbn [dispatch_sigs x_run_sigs].
     assert (Hsg : x_sgs (xabs s) = sgws s) by reflexivity. rewrite Hsg.
     destruct (is_watched s sg) eqn:Ew.
-    + assert (HW : WI sg (sgws s) (map g_id (sgws s)) s (hd_id (sgws s))).
+    + assert (HW : WI (sgws s) (snext s) (map g_id (sgws s)) s (hd_id (sgws s))).
       { exists [], (sgws s), []. apply mkWI.
         - cbn [app]. rewrite app_nil_r. reflexivity.
         - rewrite app_nil_r. reflexivity.
@@ -1148,8 +1149,9 @@ Proof.
         - intros i Hi. split; [intros []|split; [intros []|]]. apply in_map_iff in Hi. destruct Hi as [w [E Hw]]. subst i.
           apply (J_sglt s HJ). exact Hw.
         - intros w [].
+        - lia.
         - intros w Hw. exact Hw. }
-      destruct (walk_sim sg (sgws s) (J_sgnd s HJ) (map g_id (sgws s)) s (hd_id (sgws s)) HJ HW (J_sgnd s HJ))
+      destruct (walk_sim sg (sgws s) (snext s) (J_sgnd s HJ) (J_sglt s HJ) (map g_id (sgws s)) s (hd_id (sgws s)) HJ HW (J_sgnd s HJ))
         as [s1 [[X [HJ1 Dr]] [f1 Hf1]]].
       rewrite (filter_ids_Pm sg (sgws s) (J_sgnd s HJ) (sgws s) (fun w H => H)).
       destruct (IH s1 HJ1) as [s' [[R2 [R3 R4]] [f2 Hf2]]].
@@ -1288,7 +1290,7 @@ Variable env : Z -> list saction.
 Hypothesis Henv : env_ok env.
 
 (* the specification's snapshot is what ppoll writes into the table *)
-Lemma snapshot_poll : forall s, J env s ->
+Lemma snapshot_poll : forall s, J s ->
   io_snapshot (xabs s) = flat_map o2l (map snap_of (map (poll_slot (ready s)) (slots s))).
 Proof.
   intros s HJ. unfold io_snapshot. cbn [x_tab xabs x_ios x_ready]. unfold tab_of.
@@ -1297,23 +1299,23 @@ Proof.
   destruct (p_fd sl =? -1) eqn:Efd.
   - apply Z.eqb_eq in Efd. unfold snap_of, sfires. rewrite poll_fd, Efd. reflexivity.
   - assert (Hfd : p_fd sl <> -1) by (apply Z.eqb_neq; exact Efd).
-    destruct (tw_slot s (J_tw env s HJ) idx sl Hn Hfd) as [w [Hw [Hid [Hwfd Hsl]]]].
-    destruct (J_io env s HJ w Hw) as [sl' [Hn' [_ [_ Hge]]]]. rewrite Hsl, Hn in Hn'. inversion Hn'; subst sl'.
-    rewrite find_xio_map, <- Hid, (find_iow_in_nodup _ w (tw_nodup s (J_tw env s HJ)) Hw). cbn [option_map xi_fd xi_ev xio_of].
+    destruct (tw_slot s (J_tw s HJ) idx sl Hn Hfd) as [w [Hw [Hid [Hwfd Hsl]]]].
+    destruct (J_io s HJ w Hw) as [sl' [Hn' [_ [_ Hge]]]]. rewrite Hsl, Hn in Hn'. inversion Hn'; subst sl'.
+    rewrite find_xio_map, <- Hid, (find_iow_in_nodup _ w (tw_nodup s (J_tw s HJ)) Hw). cbn [option_map xi_fd xi_ev xio_of].
     rewrite Hsl, Hn, Hwfd.
     unfold snap_of, sfires. rewrite poll_fd, poll_watch, Efd. unfold poll_slot.
     assert (E0 : (p_fd sl <? 0) = false) by (apply Z.ltb_ge; lia). rewrite E0. cbn [p_revents negb andb].
     rewrite Hid. destruct (Z.land (lookup_ready (ready s) (p_fd sl)) (Z.lor (p_events sl) 56) =? 0); reflexivity.
 Qed.
 
-Lemma polled_state : forall s R, J env s ->
+Lemma polled_state : forall s R, J s ->
   let s2 := up_inwait (up_ready (up_slots s (map (poll_slot R) (slots s))) []) [] in
   xabs s2 = mkX (x_ios (xabs s)) (x_tab (xabs s)) (x_sgs (xabs s)) (x_def (xabs s)) (x_kpend (xabs s)) [] []
                 (x_next (xabs s)) (x_iter (xabs s)) (x_log (xabs s)) (x_run (xabs s)) /\
-  J env s2 /\ DI 0 (map snap_of (slots s2)) s2.
+  J s2 /\ DI 0 (map snap_of (slots s2)) s2.
 Proof.
   intros s R HJ s2.
-  assert (HJ2 : J env s2).
+  assert (HJ2 : J s2).
   { destruct HJ as [a b c d e f g]. apply mkJ; cbn; try assumption.
     - destruct a as [a1 a2 a3]. apply mkTW; cbn; try assumption.
       intros idx sl Hn Hfd. rewrite nth_error_map in Hn. destruct (nth_error (slots s) idx) as [p|] eqn:Ep; [|discriminate].
@@ -1333,12 +1335,12 @@ Proof.
     + intros j id c Hn. rewrite nth_error_map in Hn. destruct (nth_error (slots s2) j) as [sl|] eqn:E; [|discriminate].
       cbn [option_map] in Hn. injection Hn as Hs. apply snap_of_some in Hs. destruct Hs as [Hf [Hw _]].
       unfold sfires in Hf. apply andb_true_iff in Hf. destruct Hf as [Hf _]. apply negb_true_iff in Hf. apply Z.eqb_neq in Hf.
-      destruct (tw_slot s2 (J_tw env s2 HJ2) j sl E Hf) as [w [Hin [Hid _]]].
-      pose proof (tw_below s2 (J_tw env s2 HJ2)) as Hb. rewrite Forall_forall in Hb. specialize (Hb w Hin). rewrite <- Hw, <- Hid. exact Hb.
+      destruct (tw_slot s2 (J_tw s2 HJ2) j sl E Hf) as [w [Hin [Hid _]]].
+      pose proof (tw_below s2 (J_tw s2 HJ2)) as Hb. rewrite Forall_forall in Hb. specialize (Hb w Hin). rewrite <- Hw, <- Hid. exact Hb.
 Qed.
 
 (* between passes: no batch of deferred callbacks is being run, nothing recorded by the handler *)
-Definition Bd (s : sst) : Prop := J env s /\ drun s = [] /\ pending s = [].
+Definition Bd (s : sst) : Prop := J s /\ drun s = [] /\ pending s = [].
 
 Lemma subl_nil_map : forall (l : list ltr), subl (map l_id l) [] -> l = [].
 Proof. intros l H. apply subl_nil_inv in H. apply map_eq_nil in H. exact H. Qed.
@@ -1349,7 +1351,7 @@ Theorem sim_iteration : forall sleep s, Bd s ->
 Proof.
   intros sleep s [HJ [Hdr Hpe]]. unfold iteration. fold (before_poll sleep s). cbn [stop_early fixed_cfg andb].
   set (s1 := before_poll sleep s).
-  assert (HJ1 : J env s1) by (eapply J_same; [exact HJ|reflexivity..|cbn; lia]).
+  assert (HJ1 : J s1) by (eapply J_same; [exact HJ|reflexivity..|cbn; lia]).
   assert (Hsnap : io_snapshot (xabs s) = flat_map o2l (map snap_of (map (poll_slot (ready s1)) (slots s1))))
     by exact (snapshot_poll s HJ).
   destruct (polled_state s1 (ready s1) HJ1) as [Ex2 [HJ2 HD2]]. cbv zeta in Ex2, HJ2, HD2.
@@ -1377,12 +1379,12 @@ Proof.
     + (* interrupted: the handler records the delivered signals *)
       set (dlv := d0 :: dl) in *.
       set (s2 := up_errno (up_pending (up_kpend s1' []) (fold_left (fun p x => addz x p) dlv (pending s1'))) EINTR).
-      assert (HJ2' : J env s2) by (eapply J_same; [exact HJ2|reflexivity..|cbn; lia]).
+      assert (HJ2' : J s2) by (eapply J_same; [exact HJ2|reflexivity..|cbn; lia]).
       destruct (sim_invoke_laters env Henv (fun _ => True) (fun _ _ _ _ _ _ => I) (fun _ _ _ _ _ => I) s2 HJ2' I) as [E3 [HJ3 [_ Hd3]]].
       set (s3 := invoke_laters fixed_cfg env s2) in *.
       assert (Hp3 : pending s3 = fold_left (fun p x => addz x p) dlv []).
       { unfold s3. rewrite pending_invoke_laters. cbn. rewrite Hpe. reflexivity. }
-      assert (HJ3' : J env (up_pending s3 [])) by (eapply J_same; [exact HJ3|reflexivity..|cbn; lia]).
+      assert (HJ3' : J (up_pending s3 [])) by (eapply J_same; [exact HJ3|reflexivity..|cbn; lia]).
       destruct (sim_dispatch_sigs env Henv (sort_z (pending s3)) (up_pending s3 []) HJ3') as [s' [[R2 [R3 R4]] [f0 Hf0]]].
       exists s'. split; [split; [|split; [exact R3|split]]|].
       * rewrite R2. rewrite Hp3, pending_sorted.
@@ -1401,7 +1403,7 @@ Proof.
     assert (Hpos : (0 <? Z.of_nat (length (e0 :: snap))) = true) by (apply Z.ltb_lt; cbn [length]; lia).
     rewrite Hpos.
     destruct (sim_invoke_laters env Henv (DI 0 (map snap_of (slots s1')))
-                (DI_frame 0 _) (fun s a HJa Hok HD => DI_action env 0 _ s a HJa Hok HD) s1' HJ2 HD2) as [E3 [HJ3 [HD3 Hd3]]].
+                (DI_frame 0 _) (fun s a HJa Hok HD => DI_action 0 _ s a HJa Hok HD) s1' HJ2 HD2) as [E3 [HJ3 [HD3 Hd3]]].
     set (s3 := invoke_laters fixed_cfg env s1') in *.
     destruct (sim_io_dispatch env Henv (map snap_of (slots s1')) 0 s3 HJ3 HD3) as [s' [[R2 [R3 R4]] [f0 Hf0]]].
     exists s'. split; [split; [|split; [exact R3|split]]|].
@@ -1442,7 +1444,7 @@ Qed.
 
 (* ------------------------------------------------------------------ scripts *)
 
-Definition op_ok (o : sop) : Prop := match o with SAct a => act_ok env a | _ => True end.
+Definition op_ok (o : sop) : Prop := match o with SAct a => act_ok a | _ => True end.
 
 Lemma Bd_sst0 : Bd sst0.
 Proof.
@@ -1453,7 +1455,7 @@ Proof.
   - intros w [].
   - intros w [].
   - intros w [].
-  - intros w [].
+  - lia.
 Qed.
 
 Lemma sim_ops : forall ops s, Bd s -> Forall op_ok ops ->
@@ -1467,7 +1469,7 @@ Proof.
     + cbn in Ho. destruct (sim_action env s a HJ Ho) as [E HJ2].
       assert (HB2 : Bd (sdo_action fixed_cfg s a)).
       { split; [exact HJ2|split; [|rewrite pending_sdo_action; exact Hpe]].
-        apply subl_nil_map. pose proof (act_drun env s a HJ) as Hsub. rewrite Hdr in Hsub. exact Hsub. }
+        apply subl_nil_map. pose proof (act_drun s a HJ) as Hsub. rewrite Hdr in Hsub. exact Hsub. }
       destruct (IH _ HB2 Hr) as [s' [[X Y] [f0 Hf0]]]. exists s'. split; [split; [|exact Y]|].
       * rewrite X. cbn [x_op]. rewrite E. reflexivity.
       * exists f0. intros fuel Hf. cbn [sdo_op]. apply Hf0. exact Hf.
@@ -1485,10 +1487,29 @@ Proof.
       destruct (IH _ HB2 Hr) as [s' [[X Y] [f0 Hf0]]]. exists s'. split; [split; [|exact Y]|].
       * rewrite X. reflexivity.
       * exists f0. intros fuel Hf. cbn [sdo_op]. apply Hf0. exact Hf.
-    + destruct (sim_run_passes rk (up_running s true) (Bd_running s true (conj HJ (conj Hdr Hpe)))) as [s1 [[E HB1] [f1 Hf1]]].
-      destruct (IH s1 HB1 Hr) as [s' [[X Y] [f2 Hf2]]]. exists s'. split; [split; [|exact Y]|].
-      * rewrite X. cbn [x_op]. rewrite E. reflexivity.
-      * exists (Nat.max f1 f2). intros fuel Hf. cbn [sdo_op]. rewrite (Hf1 fuel ltac:(lia)). apply Hf2. lia.
+    + (* tickit_run: the SIGINT watch, the passes, its cancellation *)
+      set (sa := up_sgws (up_running s true) (remove_sgw INT_ID (sgws s) ++ [int_watch])).
+      assert (HBa : Bd sa).
+      { split; [|split; assumption]. destruct HJ as [a b c d e f g]. apply mkJ; cbn; try assumption.
+        - eapply TW_same; [exact a|reflexivity..|cbn; lia].
+        - rewrite map_app. cbn [map g_id int_watch]. apply NoDup_app_intro_single.
+          + eapply subl_nodup; [apply subl_remove_sgw|exact b].
+          + apply remove_sgw_notin. exact b.
+        - intros w Hw. apply in_app_or in Hw. destruct Hw as [Hw|[Hw|[]]].
+          + apply d. eapply in_remove_sgw_elem. exact Hw.
+          + subst w. cbn. unfold INT_ID. lia. }
+      assert (Exa : xabs sa = x_set_sgs (x_set_run (xabs s) true) (remove_sgw INT_ID (x_sgs (xabs s)) ++ [int_watch])) by reflexivity.
+      destruct (sim_run_passes rk sa HBa) as [s1 [[E HB1] [f1 Hf1]]].
+      set (sb := up_sgws s1 (remove_sgw INT_ID (sgws s1))).
+      assert (HBb : Bd sb).
+      { destruct HB1 as [HJ1 [A1 B1]]. split; [|split; assumption]. destruct HJ1 as [a b c d e f g]. apply mkJ; cbn; try assumption.
+        - eapply TW_same; [exact a|reflexivity..|cbn; lia].
+        - eapply subl_nodup; [apply subl_remove_sgw|exact b].
+        - intros w Hw. apply d. eapply in_remove_sgw_elem. exact Hw. }
+      assert (Exb : xabs sb = x_set_sgs (xabs s1) (remove_sgw INT_ID (x_sgs (xabs s1)))) by reflexivity.
+      destruct (IH sb HBb Hr) as [s' [[X Y] [f2 Hf2]]]. exists s'. split; [split; [|exact Y]|].
+      * rewrite X. cbn [x_op]. rewrite Exb, E, Exa. reflexivity.
+      * exists (Nat.max f1 f2). intros fuel Hf. cbn [sdo_op]. fold sa. rewrite (Hf1 fuel ltac:(lia)). apply Hf2. lia.
 Qed.
 
 (* destruction *)
@@ -1534,7 +1555,7 @@ Qed.
 
 (* the state every script reaches satisfies the invariant *)
 Theorem reach_J : forall ops, Forall op_ok ops ->
-  exists s, J env s /\ drun s = [] /\ pending s = [] /\
+  exists s, J s /\ drun s = [] /\ pending s = [] /\
   exists f0, forall fuel, (f0 <= fuel)%nat -> srun_ops fixed_cfg env fuel ops = Some s.
 Proof.
   intros ops Hok. destruct (sim_ops ops sst0 Bd_sst0 Hok) as [s' [[X [HJ [Hdr Hpe]]] Hf]].
@@ -1546,12 +1567,12 @@ Qed.
    ascending order; for each, the watches of that signal that are in the list at that moment
    are visited in list (registration) order, and each one that is still live when its turn comes
    is invoked exactly once -- x_run_sigs is the executable form of this sentence *)
-Theorem dispatch_invokes_live : forall s, J env s ->
-  exists s', (xabs s' = x_run_sigs env (sort_z (pending s)) (xabs s) /\ pending s' = [] /\ J env s') /\
+Theorem dispatch_invokes_live : forall s, J s ->
+  exists s', (xabs s' = x_run_sigs env (sort_z (pending s)) (xabs s) /\ pending s' = [] /\ J s') /\
   exists f0, forall fuel, (f0 <= fuel)%nat -> dispatch_signals fixed_cfg env fuel s = Some s'.
 Proof.
   intros s HJ. unfold dispatch_signals.
-  assert (HJ' : J env (up_pending s [])) by (eapply J_same; [exact HJ|reflexivity..|cbn; lia]).
+  assert (HJ' : J (up_pending s [])) by (eapply J_same; [exact HJ|reflexivity..|cbn; lia]).
   destruct (sim_dispatch_sigs env Henv (sort_z (pending s)) (up_pending s []) HJ') as [s' [[R2 [R3 R4]] [f0 Hf0]]].
   exists s'. split; [split; [exact R2|split; [|exact R3]]|exists f0; exact Hf0].
   rewrite (pending_dispatch_sigs _ _ _ _ _ _ (Hf0 f0 (Nat.le_refl _))). reflexivity.
@@ -1562,30 +1583,28 @@ End Tick.
 (* ------------------------------------------------------------------ a witness *)
 
 (* three watchers of signal 10; the callback of the first cancels its own watch and the next
-   one and registers a watch of signal 12 and a deferred callback; the third asks for UNBIND *)
+   one and registers a further watch OF SIGNAL 10 (not invoked by the walk under way: it was
+   not watching when the signal was delivered) and a deferred callback, which raises the
+   signal again; the third asks for UNBIND *)
 Definition wr_env (cb : Z) : list saction :=
-  if cb =? 1 then [SCancel 0; SCancel 1; SSig 12 false 2; SLater false 3] else
-  if cb =? 2 then [SRaise 12] else [].
+  if cb =? 1 then [SCancel 0; SCancel 1; SSig 10 false 2; SLater false 3] else
+  if cb =? 3 then [SRaise 10] else [].
 Definition wr_ops : list sop :=
   [SAct (SSig 10 false 1); SAct (SSig 10 false 2); SAct (SSig 10 true 2); SArrive 10; STick true; STick false; STick false].
 
 Lemma wr_env_ok : env_ok wr_env.
 Proof.
-  intros cb. unfold wr_env. destruct (cb =? 1).
-  - repeat constructor. cbn. intros ub' cb' [H|[]]. discriminate.
-  - destruct (cb =? 2); repeat constructor.
+  intros cb. unfold wr_env. destruct (cb =? 1); [repeat constructor|]. destruct (cb =? 3); repeat constructor.
 Qed.
 
-Lemma wr_ops_ok : Forall (op_ok wr_env) wr_ops.
-Proof.
-  repeat constructor; cbn; intros ub' cb' H; unfold wr_env in H; cbn in H;
-    repeat (destruct H as [H|H]; [discriminate|]); destruct H.
-Qed.
+Lemma wr_ops_ok : Forall op_ok wr_ops.
+Proof. repeat constructor. Qed.
 
 Lemma refines_witness :
   srun fixed_cfg wr_env 50 wr_ops = Some (xspec_run wr_env wr_ops) /\
   xspec_run wr_env wr_ops =
     [OPoll (-1); OEv (mkE 0 KSig EV_FIRE 1 0 10); OEv (mkE 2 KSig EV_FIRE 1 0 10);
-     OPoll 0; OEv (mkE 4 KLater (EV_FIRE + EV_UNBIND) 2 0 0); OEv (mkE 3 KSig EV_FIRE 2 0 12);
-     OPoll 0; OEv (mkE 3 KSig EV_FIRE 3 0 12); OEv (mkE 2 KSig (EV_UNBIND + EV_DESTROY) (-1) 0 10)].
+     OPoll 0; OEv (mkE 4 KLater (EV_FIRE + EV_UNBIND) 2 0 0);
+     OPoll 0; OEv (mkE 2 KSig EV_FIRE 3 0 10); OEv (mkE 3 KSig EV_FIRE 3 0 10);
+     OEv (mkE 2 KSig (EV_UNBIND + EV_DESTROY) (-1) 0 10)].
 Proof. split; vm_compute; reflexivity. Qed.
